@@ -46,5 +46,32 @@ its property: the failure result of PipeTo could not be encoded for a remote for
 without a user codec. It was confirmed with a throw-away test, turned into rule C15.R5
 and repaired (F30, §2).
 ''')
+# §5.4: behaviour-preserving refactorings
+refs = []
+for d in sorted(glob.glob('/verif/refactor/*/')):
+    m = json.load(open(d + 'meta.json'))
+    refs.append((os.path.basename(d.rstrip('/')), m))
+alarmed = [r for r in refs if r[1].get('initially') == 'alarm']
+out.append(f"""
+### 5.4 Independently written behaviour-preserving refactorings
+
+The other direction: for every property a fresh sub-agent (same information as above,
+nothing from `/verif`) wrote four refactorings of the code that implements it —
+extract / inline a helper, consistent renames, control-flow restructuring, loop forms,
+closures into methods, named locals — each verified by its author to build and to pass
+the suite, and asked to preserve behaviour exactly (same operations under the same
+locks, same atomics in the same order, same messages, same wire format). All checks
+were run on each (`tools/refcheck.sh`). Result: **{len(refs)} refactorings, {len(alarmed)} of them
+initially raised a false alarm** in some property; every alarm was traced to a limitation
+of the machinery and removed (5.2), none by weakening a rule that the breaking witnesses
+need (the full self-test was re-run after each correction). All are kept under
+`/verif/refactor/<id>/` and replayed by the thorough tier: the properties listed must
+stay silent.
+
+| refactoring | written for | properties that initially alarmed | what it does |
+|---|---|---|---|
+""")
+for name, m in refs:
+    out.append(f"| `{name}` | {m['property']} | {', '.join(m.get('also', [])) or ('—' if m.get('initially') != 'alarm' else m['property'])} | {m.get('desc','')[:160].replace('|','/')} |\n")
 open('/verif/docs/design_seeded.md', 'w').write(''.join(out))
 print('rows', n, 'initially missed', len(init_miss), 'still missed', len(still))
